@@ -104,6 +104,9 @@ def run_unit(uid, timeout_ms=10000):
             if sample is None:
                 sample = solve.smt_head(ob)
             if v == "refuted":
+                mdl = dict(mdl or {})
+                if ob.meta:
+                    mdl["__meta__"] = {k: str(x)[:2000] for k, x in ob.meta.items()}
                 verdict, model, why = "refuted", mdl, rs
                 sample = solve.smt_head(ob)
                 break
